@@ -1,6 +1,6 @@
 TITLE = "metrize bakes tempi into durations, once, and leaves neutral tempo behind"
 IMPORTS = ["From Coquelicot Require Import Coquelicot.", "From Coq Require Import ZArith List Bool Reals.",
-           "From MV Require Import Base.Res Model.EventTree Model.TreeOps Model.Num Model.Envelope Model.Convert Model.MetrizeSteps Proofs.RNum Proofs.Interp Proofs.Integral Proofs.ConvertCache Proofs.ConvertP Proofs.MetrizeStepsP.",
+           "From MV Require Import Base.Res Model.EventTree Model.TreeOps Model.Num Model.Envelope Model.Convert Model.MetrizeSteps Proofs.RNum Proofs.Interp Proofs.Integral Proofs.ConvertCache Proofs.ConvertP Proofs.MetrizeStepsP Proofs.MetrizeStepsAdd.",
            "Import ListNotations."]
 ENTRIES = [
  ("C13_constant_tempi_multiply", "metrize_constant", "constant tempi multiply: a leaf of length d under tempi b1..bk on its path, its own included, lasts d * (60/b1) * ... * (60/bk)"),
@@ -15,6 +15,8 @@ ENTRIES = [
  ("C13_locally_constant_tempi_multiply", "integ_steps_one_piece", "the clause the step model adds: a stretch of beats inside which no tempo of any level changes lasts its length times the product of 60 / bpm of all levels (prod_at = one factor per trajectory on the path)"),
  ("C13_stretches_add_up", "integ_steps_first_piece", "and a leaf lasts the first stretch plus the rest"),
  ("C13_one_factor_per_level", "prod_at_cons", ""),
+ ("C13_step_model_independent_of_subdivision", "integ_steps_additive", "the seconds of the beats [x, b) are those of [x, m) plus those of [m, b), whatever tempo changes of whatever level lie inside (with the fuel the model gives itself)"),
+ ("C13_leaf_subdivision", "leaf_subdivision", "hence a leaf of d1 + d2 beats lasts what a leaf of d1 beats followed by a leaf of d2 beats lasts, under any stack of step trajectories"),
  ("C13_curved_trajectories_outside_step_model", "metrize_steps_rejects_curves", "a curved trajectory below a trajectory stays undecided (model and property alike)"),
  ("C13_nested_steps_example", "nested_steps_example", "2 beats under 240 | 120 bpm (change after 1 beat) and 60 | 30 bpm (change after 1.5 beats) last 1 second"),
 ]
